@@ -140,6 +140,9 @@ func main() {
 				if !v.compactSet {
 					v.Compact = -1
 				}
+				if !v.rewindSet {
+					v.Rewind = -1
+				}
 			}
 		}
 	}
@@ -306,6 +309,13 @@ func genVariants(r *hx.Rng, l *Log, idx int, tier string) []*Variant {
 		v9 := mk(9, "mem", p1)
 		v9.Cut = cut
 		vs = append(vs, v9)
+	}
+	if thorough || idx%4 == 1 {
+		// a running replica installs the checkpoint taken at `cut` after having applied up to `rew`
+		v21 := mk(21, "mem", p1)
+		v21.Cut = cut
+		v21.Rewind, v21.rewindSet = cut+r.Intn(n-cut+1), true
+		vs = append(vs, v21)
 	}
 	if thorough && idx%3 == 0 {
 		v10 := mk(10, "pebble", p1)
@@ -692,6 +702,29 @@ func genSweep() ([]*Log, map[string][]*Variant) {
 		}
 		vars[l.ID] = []*Variant{mkv(0, -1), mkv(1, at), mkv(2, m)}
 	}
+	// the recent past: several values due, one not yet due but inside the sweep's one-hour look-ahead; the sweep
+	// on mem, pebble and rocksdb replicas must remove the same values, and nothing that is not past its expiry
+	due := [][][]string{
+		{{"setex", "t:a", "10", "1"}, {"setex", "t:b", "20", "2"}, {"setex", "t:c", "1000", "3"}, {"set", "t:d", "4"}},
+		{{"hmset", "t:a", "f", "1"}, {"hexpire", "t:a", "10"}, {"sadd", "t:b", "m"}, {"sexpire", "t:b", "30"}, {"zadd", "t:c", "1", "m"}, {"zexpire", "t:c", "2000"},
+			{"rpush", "t:e", "x"}, {"lexpire", "t:e", "15"}, {"setex", "t:f", "900", "v"}, {"set", "t:d", "4"}},
+		{{"setex", "t:c", "1000", "3"}, {"setex", "t:a", "5", "1"}, {"set", "t:d", "4"}, {"setex", "t:b", "40", "2"}, {"setex", "t:g", "3000", "9"}},
+	}
+	for _, cmds := range due {
+		n++
+		l := &Log{ID: "W" + strconv.Itoa(n), Policy: "local"}
+		ts := int64(0)
+		for _, c := range cmds {
+			ts += 1000
+			l.Reqs = append(l.Reqs, mkReq(c, ts))
+		}
+		m := len(l.Reqs)
+		logs = append(logs, l)
+		mkv := func(k int, eng string, exp int) *Variant {
+			return &Variant{ID: l.ID + ".v" + strconv.Itoa(k), Engine: eng, Part: partOne(m), Shift: len(shifts), Cut: -1, Expire: exp, Compact: -1, Rewind: -1}
+		}
+		vars[l.ID] = []*Variant{mkv(0, "pebble", -1), mkv(1, "pebble", m), mkv(2, "mem", m), mkv(3, "rocksdb", m)}
+	}
 	return logs, vars
 }
 
@@ -707,7 +740,7 @@ func mkReq(a []string, ts int64) Req {
 
 func project(l *Log, v *Variant, keep []bool) (*Log, *Variant) {
 	nl := &Log{ID: l.ID, Policy: l.Policy}
-	nv := &Variant{ID: v.ID, Engine: v.Engine, Replay: v.Replay, Shift: v.Shift, Syncer: v.Syncer, Cut: -1, Expire: -1, Compact: -1}
+	nv := &Variant{ID: v.ID, Engine: v.Engine, Replay: v.Replay, Shift: v.Shift, Syncer: v.Syncer, Cut: -1, Expire: -1, Compact: -1, Rewind: -1}
 	pos := 0
 	kept := 0
 	for _, op := range v.Part {
@@ -723,6 +756,9 @@ func project(l *Log, v *Variant, keep []bool) (*Log, *Variant) {
 				}
 				if pos == v.Compact {
 					nv.Compact = kept
+				}
+				if pos == v.Rewind {
+					nv.Rewind = kept
 				}
 				if keep[pos] {
 					m++
@@ -747,6 +783,9 @@ func project(l *Log, v *Variant, keep []bool) (*Log, *Variant) {
 	if v.Compact >= pos {
 		nv.Compact = kept
 	}
+	if v.Rewind >= pos {
+		nv.Rewind = kept
+	}
 	for i, r := range l.Reqs {
 		if keep[i] {
 			nl.Reqs = append(nl.Reqs, r)
@@ -770,8 +809,20 @@ func differ(x *runner, l *Log, a, b *Variant, keep []bool, what string) bool {
 		return ra.dump != rb.dump
 	case "raw":
 		return ra.raw != rb.raw
+	case "pfr":
+		return pfrOf(ra.dump) != pfrOf(rb.dump)
 	}
 	return strings.Join(ra.replies, ";") != strings.Join(rb.replies, ";") || ra.dump != rb.dump
+}
+
+func pfrOf(d string) string {
+	var p []string
+	for _, e := range strings.Split(d, " || ") {
+		if strings.HasPrefix(e, "pfr") {
+			p = append(p, e)
+		}
+	}
+	return strings.Join(p, " ")
 }
 
 func doShrink(x *runner, file, out string) {
